@@ -126,6 +126,9 @@ def surface_dirty(repo, keys):
                 writes = [w[1] for w in an.writes if w[0] == cell]
                 msg = "cell '%s' is written (%s) and never written back from a snapshot of that cell taken before the write" % (cell, "; ".join(writes[:3]))
             out.append((key, cell, exit_kind, has_restore, msg, path, f.lineno))
+        for cell, var, text, astn in an.alias_inplace:
+            if cell in cells:
+                out.append((key, cell, "alias:" + text, True, "in-place mutation `%s` while `%s` aliases the saved %s list: the later write-back from `%s` restores nothing" % (text, var, cell, var), [], getattr(astn, "lineno", f.lineno)))
     return out, nodes
 
 
